@@ -62,7 +62,7 @@ def run(ctx):
                 return rng.choice([float(v), bool(v)])
             if type(v) is bool:
                 return int(v)
-            if type(v) is float and v == int(v) and abs(v) < 10:
+            if type(v) is float and v == v and abs(v) < 10 and v == int(v):
                 return int(v)
             return v
         pre = rng.random()
